@@ -288,6 +288,13 @@ func corrC17(r *Run) {
 	waitTables := tablePerturbTest(r, "charsets")
 	defer waitTables()
 	codecHistoryTests(r, "C17", r.N(40, 600), r.N(6, 40))
+	{ // entry points other than Bytes: String, transform.String / Append, Writer, Reader - for every coding of the table and an alias value
+		var dcs []coding.DataCoding
+		for _, cs := range charsetList {
+			dcs = append(dcs, cs.dc)
+		}
+		xfEntryPointTests(r, "xf", append(dcs, 0xE0+coding.DataCoding(r.Rng.Intn(16))))
+	}
 	alph := alphabets()
 
 	// ---- 1. exhaustive per-rune conformance for the codings with a standard to compare with
